@@ -217,3 +217,33 @@ func NegatePub(pub []byte) []byte {
 	y.FillBytes(out[33:65])
 	return out
 }
+
+// TextLikeNonces: ECDSA nonces k for which the x coordinate of k*G (the r word of the signature) begins with
+// bytes that a content-sniffing reader takes for text: "0X", "0x", `{"`, `["` (found once by search, k = 1, 2, 3, ...).
+var TextLikeNonces = []int64{26371, 33734, 37220, 69713}
+
+// SignDigestWithK signs digest with the explicit nonce k: a perfectly valid signature of this key whose r word is
+// the x coordinate of k*G. Low-s form, v in {0,1}.
+func (k *Key) SignDigestWithK(digest []byte, nonce int64) []byte {
+	c := secp256k1.S256()
+	kk := big.NewInt(nonce)
+	x, y := c.ScalarBaseMult(kk.Bytes())
+	r := new(big.Int).Mod(x, curveN)
+	d := new(big.Int).SetBytes(k.Priv.Serialize())
+	z := new(big.Int).SetBytes(digest)
+	s := new(big.Int).Mul(r, d)
+	s.Add(s, z)
+	s.Mul(s, new(big.Int).ModInverse(kk, curveN))
+	s.Mod(s, curveN)
+	v := byte(y.Bit(0))
+	half := new(big.Int).Rsh(curveN, 1)
+	if s.Cmp(half) > 0 {
+		s.Sub(curveN, s)
+		v ^= 1
+	}
+	out := make([]byte, 65)
+	r.FillBytes(out[0:32])
+	s.FillBytes(out[32:64])
+	out[64] = v
+	return out
+}
